@@ -233,6 +233,25 @@ impl Atoms {
     }
 }
 
+/// Some(ranges) if r denotes a rigid word: a single range, epsilon, or a concatenation of ranges
+pub fn rigid_word(r: &Ref) -> Option<Vec<(u32, u32)>> {
+    match r {
+        Ref::Eps => Some(vec![]),
+        Ref::Range(a, b) => Some(vec![(*a, *b)]),
+        Ref::Cat(v) => {
+            let mut out = Vec::with_capacity(v.len());
+            for x in v {
+                match &**x {
+                    Ref::Range(a, b) => out.push((*a, *b)),
+                    _ => return None,
+                }
+            }
+            Some(out)
+        }
+        _ => None,
+    }
+}
+
 // ------------------------------------------------------------------ DFA
 
 #[derive(Debug)]
@@ -309,6 +328,52 @@ impl Dfa {
     }
     pub fn not(&self) -> Dfa {
         Dfa { a: self.a, t: self.t.clone(), f: self.f.iter().map(|b| !b).collect(), start: self.start }
+    }
+
+    /// union of rigid words (sequences of ranges aligned with the atoms): subset construction over (word, position) items
+    pub fn from_rigid_words(words: &[Vec<(u32, u32)>], atoms: &Atoms, bud: &Bud) -> Res<Dfa> {
+        let a = atoms.n();
+        let mut start: Vec<(u32, u32)> = (0..words.len() as u32).map(|k| (k, 0)).collect();
+        start.sort_unstable();
+        let mut idx: HashMap<Vec<(u32, u32)>, u32> = HashMap::new();
+        let mut q: Vec<Vec<(u32, u32)>> = vec![start.clone()];
+        idx.insert(start, 0);
+        let mut t = Vec::new();
+        let mut f = Vec::new();
+        let mut i = 0;
+        while i < q.len() {
+            let items = q[i].clone();
+            i += 1;
+            f.push(items.iter().any(|&(k, p)| p as usize == words[k as usize].len()));
+            // successor item sets per atom: one pass over the items, each range spreads over a run of atoms
+            let mut succ: Vec<Vec<(u32, u32)>> = vec![Vec::new(); a];
+            for &(k, p) in &items {
+                if let Some(&(x, y)) = words[k as usize].get(p as usize) {
+                    let (k0, k1) = (atoms.of(x), atoms.of(y));
+                    bud.spend(k1 - k0 + 1)?;
+                    for at in k0..=k1 {
+                        succ[at].push((k, p + 1));
+                    }
+                }
+            }
+            for set in succ {
+                let l = q.len() as u32;
+                let id = match idx.get(&set) {
+                    Some(&id) => id,
+                    None => {
+                        idx.insert(set.clone(), l);
+                        q.push(set);
+                        l
+                    }
+                };
+                t.push(id);
+            }
+            if q.len() > bud.states {
+                return Err(OverBudget);
+            }
+            bud.spend(a / 8 + 1)?;
+        }
+        Ok(Dfa { a, t, f, start: 0 }.minimize())
     }
 
     /// product automaton for union (and=false) or intersection (and=true)
@@ -917,6 +982,17 @@ impl Engine {
                     acc = acc.cat(&dx, b)?;
                 }
                 acc
+            }
+            Ref::Or(v) if v.len() >= 8 && v.iter().all(|x| rigid_word(x).is_some()) => {
+                // union of many rigid words (each a sequence of character ranges): position automaton built directly,
+                // instead of v.len() successive products
+                let words: Vec<Vec<(u32, u32)>> = v.iter().map(|x| rigid_word(x).unwrap()).collect();
+                for w in &words {
+                    for &(x, y) in w {
+                        assert!(self.atoms.aligned(x, y), "range [{:x},{:x}] not aligned with atoms", x, y);
+                    }
+                }
+                Dfa::from_rigid_words(&words, &self.atoms, b)?
             }
             Ref::Or(v) => {
                 let mut acc = Dfa::none(a);
